@@ -60,8 +60,11 @@ def b2_games(ctx, types, games, plies, setups, heavy=1, shards=4, label="games",
 def c01(ctx):
     quick = ctx.tier == "quick"
     seeds = seed_records(seeds_for(ctx.tier), both_colours=True)
-    summ = engines.oracle_replay(ctx, seeds, 2 if quick else 3, ["C01"], label="positions")
+    summ = engines.oracle_replay(ctx, seeds, 2, ["C01"], label="positions")
     engines.absorb_replay(ctx, summ)
+    if not quick:
+        s3 = engines.oracle_replay(ctx, sparse_seed_records(16), 3, ["C01"], label="sparse3")
+        engines.absorb_replay(ctx, s3)
     tags = summ["tags"]
     ctx.require_tags(tags, ALL_KIND_TAGS + RULE_TAGS)
     if not quick:
@@ -81,8 +84,11 @@ def c01(ctx):
 def c03(ctx):
     quick = ctx.tier == "quick"
     seeds = seed_records(seeds_for(ctx.tier), both_colours=True)
-    summ = engines.oracle_replay(ctx, seeds, 2 if quick else 3, ["C03"], label="positions")
+    summ = engines.oracle_replay(ctx, seeds, 2, ["C03"], label="positions")
     engines.absorb_replay(ctx, summ)
+    if not quick:
+        s3 = engines.oracle_replay(ctx, sparse_seed_records(16), 3, ["C03"], label="sparse3")
+        engines.absorb_replay(ctx, s3)
     ctx.require_tags(summ["movekinds"], ALL_KIND_TAGS)
     ctx.require_tags(summ["tags"], ["home-rook-captured", "promotion-captures-home-rook"])
     ctx.extra["move_kinds_applied"] = summ["movekinds"]
